@@ -1,4 +1,5 @@
 import GB.C14.Proofs
+import GB.C06.ProofsSvc
 /-
   C14 ↔ C11 — first-claimant stability at the granularity of single sync.Map operations.
 
@@ -17,33 +18,40 @@ open GB.C06
 abbrev RMap := SvcName → Option SvcRoute
 
 /-- the sync.Map after each atomic operation of the first loop of `updateRoutes` (fixed code):
-    `LoadOrStore` (stores or leaves the map alone), then `Store` on the same-owner branch -/
-def addLoopTrace (dn : Name) (dv : Ver) : List Service → Nat → RMap → List RMap
+    `LoadOrStore` (stores or leaves the map alone), then `Store` on the same-owner branch; the conflict branch only
+    writes the mutex-guarded waiting list (fix D31), no map operation -/
+def addLoopTrace (dn : Name) (dv : Ver) : List Service → Nat → AddSt → List RMap
   | [], _, _ => []
-  | s :: ss, i, r =>
-    match r s.name with
+  | s :: ss, i, a =>
+    match a.r s.name with
     | none =>
-      upd r s.name (some ⟨dn, dv, i⟩) :: addLoopTrace dn dv ss (i + 1) (upd r s.name (some ⟨dn, dv, i⟩))
+      upd a.r s.name (some ⟨dn, dv, i⟩) :: addLoopTrace dn dv ss (i + 1)
+        { a with r := upd a.r s.name (some ⟨dn, dv, i⟩), acc := if s.name ∈ a.acc then a.acc else a.acc ++ [s.name] }
     | some old =>
-      if old.target ≠ dn then r :: addLoopTrace dn dv ss (i + 1) r
-      else r :: upd r s.name (some ⟨dn, dv, i⟩) ::
-        addLoopTrace dn dv ss (i + 1) (upd r s.name (some ⟨dn, dv, i⟩))
+      if old.target ≠ dn then
+        a.r :: addLoopTrace dn dv ss (i + 1) { a with w := upd a.w s.name (recordClaim (a.w s.name) ⟨dn, dv, i⟩) }
+      else
+        a.r :: upd a.r s.name (some ⟨dn, dv, i⟩) :: addLoopTrace dn dv ss (i + 1)
+          { a with r := upd a.r s.name (some ⟨dn, dv, i⟩), acc := if s.name ∈ a.acc then a.acc else a.acc ++ [s.name] }
 
-/-- the sync.Map after each `Delete` of the second loop / of `removeTarget` -/
-def delLoopTrace (present : List SvcName) : List SvcName → RMap → List RMap
+/-- the sync.Map after each `release` of the second loop / of `removeTarget`: ONE `Store` (hand-over to the first
+    waiting claimant) or ONE `Delete` per released service -/
+def delLoopTrace (present : List SvcName) : List SvcName → DelSt → List RMap
   | [], _ => []
-  | s :: ss, r =>
-    if s ∈ present then delLoopTrace present ss r
-    else upd r s none :: delLoopTrace present ss (upd r s none)
+  | s :: ss, q =>
+    if s ∈ present then delLoopTrace present ss q
+    else (release q s).r :: delLoopTrace present ss (release q s)
 
 /-- all intermediate maps of one `updateRoutes(desc)` -/
 def updateTrace (st : SvcState) (d : Desc) : List RMap :=
-  addLoopTrace d.name d.ver d.services 0 st.routes ++
-    delLoopTrace (addLoop d.name d.ver d.services 0 st.routes []).2 (sliceOf (st.svcRoutes d.name))
-      (addLoop d.name d.ver d.services 0 st.routes []).1
+  let a := addLoop d.name d.ver d.services 0 ⟨st.routes, st.waiting, []⟩
+  addLoopTrace d.name d.ver d.services 0 ⟨st.routes, st.waiting, []⟩ ++
+    delLoopTrace a.acc (sliceOf (st.svcRoutes d.name))
+      ⟨a.r, fun x => if listedB d.services x then a.w x else dropClaim (a.w x) d.name, st.svcRoutes⟩
 
 /-- all intermediate maps of one `removeTarget(n)` -/
-def removeTrace (st : SvcState) (n : Name) : List RMap := delLoopTrace [] (sliceOf (st.svcRoutes n)) st.routes
+def removeTrace (st : SvcState) (n : Name) : List RMap :=
+  delLoopTrace [] (sliceOf (st.svcRoutes n)) ⟨st.routes, st.waiting, st.svcRoutes⟩
 
 /-- all intermediate maps of one operation (none for Watch and for ignored calls) -/
 def stepTrace (st : SvcState) : Op → List RMap
@@ -53,88 +61,88 @@ def stepTrace (st : SvcState) : Op → List RMap
 
 /-- the traces end in the map the model of the operation computes -/
 theorem addLoopTrace_last (dn : Name) (dv : Ver) (ss : List Service) :
-    ∀ (i : Nat) (r : RMap) (acc : List SvcName),
-      (addLoopTrace dn dv ss i r).getLastD r = (addLoop dn dv ss i r acc).1 := by
+    ∀ (i : Nat) (a : AddSt), (addLoopTrace dn dv ss i a).getLastD a.r = (addLoop dn dv ss i a).r := by
   induction ss with
-  | nil => intro i r acc; rfl
+  | nil => intro i a; rfl
   | cons s ss ih =>
-    intro i r acc
+    intro i a
     simp only [addLoopTrace, addLoop]
-    cases hr : r s.name with
+    cases hr : a.r s.name with
     | none =>
       simp only
-      rw [← ih (i + 1) _ (acc ++ [s.name])]
-      cases addLoopTrace dn dv ss (i + 1) (upd r s.name (some ⟨dn, dv, i⟩)) <;> simp [List.getLastD]
+      rw [← ih (i + 1) _]
+      cases addLoopTrace dn dv ss (i + 1) _ <;> simp [List.getLastD]
     | some old =>
       simp only
       by_cases ht : old.target ≠ dn
       · simp only [ht, ne_eq, not_false_eq_true, ↓reduceIte]
-        rw [← ih (i + 1) r acc]
-        cases addLoopTrace dn dv ss (i + 1) r <;> simp [List.getLastD]
+        rw [← ih (i + 1) _]
+        cases addLoopTrace dn dv ss (i + 1) _ <;> simp [List.getLastD]
       · simp only [ht, ↓reduceIte]
-        rw [← ih (i + 1) _ (acc ++ [s.name])]
-        cases addLoopTrace dn dv ss (i + 1) (upd r s.name (some ⟨dn, dv, i⟩)) <;> simp [List.getLastD]
+        rw [← ih (i + 1) _]
+        cases addLoopTrace dn dv ss (i + 1) _ <;> simp [List.getLastD]
 
 theorem delLoopTrace_last (present : List SvcName) (old : List SvcName) :
-    ∀ r : RMap, (delLoopTrace present old r).getLastD r = delLoop present old r := by
+    ∀ q : DelSt, (delLoopTrace present old q).getLastD q.r = (delLoop present old q).r := by
   induction old with
-  | nil => intro r; rfl
+  | nil => intro q; rfl
   | cons s ss ih =>
-    intro r
+    intro q
     simp only [delLoopTrace, delLoop]
     by_cases hp : s ∈ present
-    · simp only [hp, ↓reduceIte]; exact ih r
+    · simp only [hp, ↓reduceIte]; exact ih q
     · simp only [hp, ↓reduceIte]
-      rw [← ih (upd r s none)]
-      cases delLoopTrace present ss (upd r s none) <;> simp [List.getLastD]
+      rw [← ih (release q s)]
+      cases delLoopTrace present ss (release q s) <;> simp [List.getLastD]
 
 /-- a key held by ANOTHER target is never written by the add phase — not even transiently -/
 theorem addLoopTrace_foreign (dn : Name) (dv : Ver) (x : SvcName) (ss : List Service) :
-    ∀ (i : Nat) (r : RMap), Foreign r dn x → ∀ r' ∈ addLoopTrace dn dv ss i r, r' x = r x := by
+    ∀ (i : Nat) (a : AddSt), Foreign a.r dn x → ∀ r' ∈ addLoopTrace dn dv ss i a, r' x = a.r x := by
   induction ss with
-  | nil => intro i r _ r' hr'; simp [addLoopTrace] at hr'
+  | nil => intro i a _ r' hr'; simp [addLoopTrace] at hr'
   | cons s ss ih =>
-    intro i r hf r' hr'
+    intro i a hf r' hr'
     obtain ⟨o, ho, hne⟩ := hf
-    have hstore : s.name ≠ x → upd r s.name (some ⟨dn, dv, i⟩) x = r x := fun h => upd_other _ _ _ (fun e => h e.symm)
-    have hfor : s.name ≠ x → Foreign (upd r s.name (some ⟨dn, dv, i⟩)) dn x := fun h => ⟨o, by rw [hstore h]; exact ho, hne⟩
+    have hstore : s.name ≠ x → upd a.r s.name (some ⟨dn, dv, i⟩) x = a.r x := fun h => upd_other _ _ _ (fun e => h e.symm)
     simp only [addLoopTrace] at hr'
-    cases hr : r s.name with
+    cases hr : a.r s.name with
     | none =>
       have hsx : s.name ≠ x := by intro e; rw [e, ho] at hr; cases hr
       simp only [hr, List.mem_cons] at hr'
       rcases hr' with rfl | hr'
       · exact hstore hsx
-      · rw [ih (i + 1) _ (hfor hsx) r' hr']; exact hstore hsx
+      · rw [ih (i + 1) _ ⟨o, by show upd a.r s.name _ x = some o; rw [hstore hsx]; exact ho, hne⟩ r' hr']
+        exact hstore hsx
     | some old =>
       simp only [hr] at hr'
       by_cases ht : old.target ≠ dn
       · simp only [ht, ne_eq, not_false_eq_true, ↓reduceIte, List.mem_cons] at hr'
         rcases hr' with rfl | hr'
         · rfl
-        · exact ih (i + 1) r ⟨o, ho, hne⟩ r' hr'
+        · exact ih (i + 1) { a with w := upd a.w s.name (recordClaim (a.w s.name) ⟨dn, dv, i⟩) } ⟨o, ho, hne⟩ r' hr'
       · have hsx : s.name ≠ x := by
           intro e; rw [e, ho] at hr; cases hr; exact ht hne
         simp only [ht, ↓reduceIte, List.mem_cons] at hr'
         rcases hr' with rfl | rfl | hr'
         · rfl
         · exact hstore hsx
-        · rw [ih (i + 1) _ (hfor hsx) r' hr']; exact hstore hsx
+        · rw [ih (i + 1) _ ⟨o, by show upd a.r s.name _ x = some o; rw [hstore hsx]; exact ho, hne⟩ r' hr']
+          exact hstore hsx
 
 /-- a key the updating target itself holds stays with it throughout the add phase -/
 theorem addLoopTrace_own (dn : Name) (dv : Ver) (x : SvcName) (ss : List Service) :
-    ∀ (i : Nat) (r : RMap), (∃ o, r x = some o ∧ o.target = dn) →
-      ∀ r' ∈ addLoopTrace dn dv ss i r, ∃ o, r' x = some o ∧ o.target = dn := by
+    ∀ (i : Nat) (a : AddSt), (∃ o, a.r x = some o ∧ o.target = dn) →
+      ∀ r' ∈ addLoopTrace dn dv ss i a, ∃ o, r' x = some o ∧ o.target = dn := by
   induction ss with
-  | nil => intro i r _ r' hr'; simp [addLoopTrace] at hr'
+  | nil => intro i a _ r' hr'; simp [addLoopTrace] at hr'
   | cons s ss ih =>
-    intro i r hown r' hr'
-    have hstore : ∃ o, upd r s.name (some ⟨dn, dv, i⟩) x = some o ∧ o.target = dn := by
+    intro i a hown r' hr'
+    have hstore : ∃ o, upd a.r s.name (some ⟨dn, dv, i⟩) x = some o ∧ o.target = dn := by
       by_cases hsx : x = s.name
       · subst hsx; exact ⟨_, upd_same _ _ _, rfl⟩
       · rw [upd_other _ _ _ hsx]; exact hown
     simp only [addLoopTrace] at hr'
-    cases hr : r s.name with
+    cases hr : a.r s.name with
     | none =>
       simp only [hr, List.mem_cons] at hr'
       rcases hr' with rfl | hr'
@@ -146,20 +154,20 @@ theorem addLoopTrace_own (dn : Name) (dv : Ver) (x : SvcName) (ss : List Service
       · simp only [ht, ne_eq, not_false_eq_true, ↓reduceIte, List.mem_cons] at hr'
         rcases hr' with rfl | hr'
         · exact hown
-        · exact ih (i + 1) r hown r' hr'
+        · exact ih (i + 1) { a with w := upd a.w s.name (recordClaim (a.w s.name) ⟨dn, dv, i⟩) } hown r' hr'
       · simp only [ht, ↓reduceIte, List.mem_cons] at hr'
         rcases hr' with rfl | rfl | hr'
         · exact hown
         · exact hstore
         · exact ih (i + 1) _ hstore r' hr'
 
-/-- the delete phases only touch keys of the old claim list that are not claimed again -/
+/-- the release loops only touch keys of the old owned list that are not claimed again -/
 theorem delLoopTrace_keep (present : List SvcName) (x : SvcName) (old : List SvcName) :
-    ∀ r : RMap, (x ∉ old ∨ x ∈ present) → ∀ r' ∈ delLoopTrace present old r, r' x = r x := by
+    ∀ q : DelSt, (x ∉ old ∨ x ∈ present) → ∀ r' ∈ delLoopTrace present old q, r' x = q.r x := by
   induction old with
-  | nil => intro r _ r' hr'; simp [delLoopTrace] at hr'
+  | nil => intro q _ r' hr'; simp [delLoopTrace] at hr'
   | cons s ss ih =>
-    intro r hx r' hr'
+    intro q hx r' hr'
     have hx' : x ∉ ss ∨ x ∈ present := by
       rcases hx with h | h
       · exact Or.inl (fun hm => h (by simp [hm]))
@@ -167,20 +175,50 @@ theorem delLoopTrace_keep (present : List SvcName) (x : SvcName) (old : List Svc
     simp only [delLoopTrace] at hr'
     by_cases hp : s ∈ present
     · simp only [hp, ↓reduceIte] at hr'
-      exact ih r hx' r' hr'
+      exact ih q hx' r' hr'
     · have hsx : x ≠ s := by
         intro e
         rcases hx with h | h
         · exact h (by simp [e])
         · exact hp (e ▸ h)
+      have hrel : (release q s).r x = q.r x := by rw [release_r]; simp [hsx]
       simp only [hp, ↓reduceIte, List.mem_cons] at hr'
       rcases hr' with rfl | hr'
-      · exact upd_other _ _ _ hsx
-      · rw [ih _ hx' r' hr']; exact upd_other _ _ _ hsx
+      · exact hrel
+      · rw [ih _ hx' r' hr']; exact hrel
+
+/-- **no unrouted gap**: a released key goes from its old entry to the first waiting claimant (or to "absent" when
+    nobody waits) in ONE step — every intermediate map holds one of the two -/
+theorem delLoopTrace_handover (present : List SvcName) (x : SvcName) (old : List SvcName) :
+    ∀ q : DelSt, old.Nodup → ∀ r' ∈ delLoopTrace present old q, r' x = q.r x ∨ r' x = (q.w x).head? := by
+  induction old with
+  | nil => intro q _ r' hr'; simp [delLoopTrace] at hr'
+  | cons s ss ih =>
+    intro q hnd r' hr'
+    obtain ⟨hs, hnd'⟩ := List.nodup_cons.mp hnd
+    simp only [delLoopTrace] at hr'
+    by_cases hp : s ∈ present
+    · simp only [hp, ↓reduceIte] at hr'
+      exact ih q hnd' r' hr'
+    · simp only [hp, ↓reduceIte, List.mem_cons] at hr'
+      by_cases hsx : x = s
+      · subst hsx
+        right
+        have hrel : (release q x).r x = (q.w x).head? := by rw [release_r]; simp
+        rcases hr' with rfl | hr'
+        · exact hrel
+        · rw [delLoopTrace_keep present x ss _ (Or.inl hs) r' hr']; exact hrel
+      · have hr : (release q s).r x = q.r x := by rw [release_r]; simp [hsx]
+        have hw : (release q s).w x = q.w x := by rw [release_w]; simp [hsx]
+        rcases hr' with rfl | hr'
+        · exact Or.inl hr
+        · rcases ih _ hnd' r' hr' with h | h
+          · exact Or.inl (h.trans hr)
+          · exact Or.inr (by rw [h, hw])
 
 /-- **atomic-level stability**: while `n` owns `svc`, every intermediate sync.Map state of every operation that is
     neither `close n` nor an update of `n` dropping `svc` still maps `svc` to an entry of `n` -/
-theorem owner_stable_atomic {st : SvcState} (h : SInv0 st) (n : Name) (svc : SvcName) (r : SvcRoute)
+theorem owner_stable_atomic {st : SvcState} (h : WInv st) (n : Name) (svc : SvcName) (r : SvcRoute)
     (hr : st.routes svc = some r) (hn : r.target = n) (op : Op)
     (hk : op ≠ .close n ∧ ∀ d, op = .update n d → listed d.services svc) :
     ∀ r' ∈ stepTrace st op, ∃ o, r' svc = some o ∧ o.target = n := by
@@ -194,6 +232,7 @@ theorem owner_stable_atomic {st : SvcState} (h : SInv0 st) (n : Name) (svc : Svc
       · subst hd
         simp only [hw, Bool.not_true, Bool.false_eq_true, ↓reduceIte, ne_eq, not_true_eq_false,
           updateTrace, List.mem_append] at hr'
+        obtain ⟨a1, a2, a3, _, _, _⟩ := addLoop_spec d.name d.ver d.services 0 ⟨st.routes, st.waiting, []⟩ svc
         by_cases hmn : d.name = n
         · -- the owner itself re-lists the service
           have hl := hk.2 d (by rw [hmn])
@@ -201,23 +240,24 @@ theorem owner_stable_atomic {st : SvcState} (h : SInv0 st) (n : Name) (svc : Svc
           have hnf : ¬ Foreign st.routes d.name svc := by
             rintro ⟨o, ho, hne⟩; rw [hr] at ho; cases ho; exact hne (hn.trans hmn.symm)
           rcases hr' with hr' | hr'
-          · obtain ⟨o, ho, ht⟩ := addLoopTrace_own d.name d.ver svc d.services 0 st.routes hown r' hr'
+          · obtain ⟨o, ho, ht⟩ := addLoopTrace_own d.name d.ver svc d.services 0 _ hown r' hr'
             exact ⟨o, ho, ht.trans hmn⟩
-          · rw [delLoopTrace_keep _ svc _ _ (Or.inr ((update_claims st d svc).mpr ⟨hl, hnf⟩)) r' hr']
-            obtain ⟨_, a2, _⟩ := addLoop_spec d.name d.ver d.services 0 st.routes [] svc
+          · have hin : svc ∈ (addLoop d.name d.ver d.services 0 ⟨st.routes, st.waiting, []⟩).acc := by
+              rw [a3]; exact Or.inr ⟨hl, hnf⟩
+            rw [delLoopTrace_keep _ svc _ _ (Or.inr hin) r' hr']
             obtain ⟨j, _, hp⟩ := a2 hl hnf
             exact ⟨_, hp, hmn⟩
         · -- another target updates: the key is foreign to it
           have hf : Foreign st.routes d.name svc := ⟨r, hr, by rw [hn]; exact fun e => hmn e.symm⟩
           rcases hr' with hr' | hr'
-          · rw [addLoopTrace_foreign d.name d.ver svc d.services 0 st.routes hf r' hr']; exact ⟨r, hr, hn⟩
+          · rw [addLoopTrace_foreign d.name d.ver svc d.services 0 _ hf r' hr']; exact ⟨r, hr, hn⟩
           · have hnot : svc ∉ sliceOf (st.svcRoutes d.name) := by
               intro hx
-              obtain ⟨r2, hr2, ht2⟩ := h.claims _ _ hx
+              obtain ⟨r2, hr2, ht2⟩ := (h.owned _ _).mp hx
               rw [hr] at hr2; cases hr2
               exact hmn (ht2.symm.trans hn)
             rw [delLoopTrace_keep _ svc _ _ (Or.inl hnot) r' hr']
-            obtain ⟨a1, _, _⟩ := addLoop_spec d.name d.ver d.services 0 st.routes [] svc
+            show ∃ o, (addLoop d.name d.ver d.services 0 ⟨st.routes, st.waiting, []⟩).r svc = some o ∧ o.target = n
             rw [a1 (Or.inl hf)]; exact ⟨r, hr, hn⟩
       · simp [hw, hd] at hr'
     · simp [hw] at hr'
@@ -228,7 +268,7 @@ theorem owner_stable_atomic {st : SvcState} (h : SInv0 st) (n : Name) (svc : Svc
     · simp only [hw, Bool.not_true, Bool.false_eq_true, ↓reduceIte, removeTrace] at hr'
       have hnot : svc ∉ sliceOf (st.svcRoutes m) := by
         intro hx
-        obtain ⟨r2, hr2, ht2⟩ := h.claims _ _ hx
+        obtain ⟨r2, hr2, ht2⟩ := (h.owned _ _).mp hx
         rw [hr] at hr2; cases hr2
         exact hmn (ht2.symm.trans hn)
       rw [delLoopTrace_keep _ svc _ _ (Or.inl hnot) r' hr']; exact ⟨r, hr, hn⟩
@@ -251,11 +291,8 @@ def addLoopSwapTrace (dn : Name) (dv : Ver) : List Service → Nat → RMap → 
       else
         upd r s.name (some ⟨dn, dv, i⟩) :: addLoopSwapTrace dn dv ss (i + 1) (upd r s.name (some ⟨dn, dv, i⟩))
 
-/-- `updateRoutes` of the variant: same claim list, the map the Swap loop ends in, then the delete phase -/
-def updateRoutesSwap (st : SvcState) (d : Desc) : SvcState :=
-  let p := addLoop d.name d.ver d.services 0 st.routes []
-  { st with routes := delLoop p.2 (sliceOf (st.svcRoutes d.name))
-                        ((addLoopSwapTrace d.name d.ver d.services 0 st.routes).getLastD st.routes),
-            svcRoutes := upd st.svcRoutes d.name (some p.2) }
+/-- the map the Swap loop of the variant ends in (its bookkeeping is that of the real code) -/
+def swapLoopEnd (st : SvcState) (d : Desc) : RMap :=
+  (addLoopSwapTrace d.name d.ver d.services 0 st.routes).getLastD st.routes
 
 end GB.C14
